@@ -57,6 +57,42 @@ Arguments CIf {V}. Arguments CLet {V}. Arguments CIfLet {V}.
 Inductive aarg (V : Type) := GWild | GVar (x : V) | GExp.
 Arguments GWild {V}. Arguments GVar {V}. Arguments GExp {V}.
 
+(* ------------------------------------------------------------------ patterns (syn_utils.rs pattern_get_vars)
+   The lists [bs] above (APat, CLet, CIfLet) and below (SGen, SAgg) are what pattern_get_vars REPORTS for the pattern
+   written in the rule; every consumer of bound variables in the real code (CondClause::bound_vars, BodyClauseArg::get_vars,
+   the generator / aggregate arms of compile_rule_to_ir_rule, rule_desugar_repeated_vars, MirBodyItem::bound_vars) goes
+   through that one helper.  [pat_vars paren] mirrors it arm by arm; [paren] says whether the helper has an arm for
+   Pat::Paren.  The code under verification has none (the pattern falls into `_ => {}`), so the variables of a
+   parenthesised sub-pattern are invisible to every check. *)
+
+Inductive pat (V : Type) :=
+| PVar (x : V)                   (* x, ref x, mut x        Pat::Ident without sub-pattern *)
+| PAt (x : V) (p : pat V)        (* x @ p                  Pat::Ident with sub-pattern *)
+| PWild                          (* _, literal, range, path, `..`   bind nothing *)
+| PParen (p : pat V)             (* (p)                    Pat::Paren *)
+| PRef (p : pat V)               (* &p                     Pat::Reference *)
+| PSeq (ps : list (pat V)).      (* (p, ..) [p, ..] C(p, ..) C { f: p, .. }   Pat::Tuple / Slice / TupleStruct / Struct *)
+Arguments PVar {V}. Arguments PAt {V}. Arguments PWild {V}. Arguments PParen {V}. Arguments PRef {V}. Arguments PSeq {V}.
+
+Fixpoint pat_vars {V} (paren : bool) (p : pat V) : list V :=
+  match p with
+  | PVar x => [x]
+  | PAt x q => x :: pat_vars paren q
+  | PWild => []
+  | PParen q => if paren then pat_vars paren q else []
+  | PRef q => pat_vars paren q
+  | PSeq ps => flat_map (pat_vars paren) ps
+  end.
+
+(* the variables the Rust pattern really binds *)
+Definition pat_binds {V} (p : pat V) : list V := pat_vars true p.
+
+(* THE LINE TO FLIP when pattern_get_vars gets its Pat::Paren arm (value for the code under verification: false) *)
+Definition pattern_get_vars_traverses_paren : bool := false.
+
+(* pattern_get_vars of the code under verification *)
+Definition get_vars {V} (p : pat V) : list V := pat_vars pattern_get_vars_traverses_paren p.
+
 Inductive sitem (V : Type) :=
 | SClause (rel : nat) (args : list (arg V)) (conds : list (cond V))
 | SNeg (rel : nat) (nargs : nat)                                          (* !rel(e1, .., en) *)
@@ -219,6 +255,71 @@ Definition macros_of (its : list item0) : list macrodef :=
   flat_map (fun i => match i with IMacro _ m => [m] | _ => [] end) its.
 Definition rules_of (its : list item0) : list srule :=
   flat_map (fun i => match i with IRule _ r => [r] | _ => [] end) its.
+
+(* ------------------------------------------------------------------ stage 0: the text, and who gets which outer attribute
+   parse_ascent_program reads   #![inner]*  #[outer]*  (struct signature)?  ( #[outer]* item )*   and must decide whom the
+   outer attributes at the top belong to before it knows whether a signature follows:
+
+     let mut struct_attrs = Attribute::parse_outer(input)?;
+     let signatures = if input.peek(pub) || input.peek(struct) { .. signatures.declaration.attrs = take(&mut struct_attrs) .. };
+     while !input.is_empty() {
+        let attrs = if !struct_attrs.is_empty() { take(&mut struct_attrs) } else { Attribute::parse_outer(input)? };
+        relation / lattice => relation_node.attrs = attrs
+        macro / include_source! / rule => if !attrs.is_empty() { Err("unexpected attribute(s)") }
+
+   A text is the signature (None, or Some of the attributes written in front of it) and the items, each with the
+   attributes written in front of it.  [program] (above) is what the checks see: each item with the attributes the
+   parser HANDED it.  The same parser validates the body of an ascent_source! (no signature there). *)
+
+Inductive bare0 :=
+| BRel (name : nat) (tys : list nat) (lat : bool)
+| BRule (r : srule)
+| BMacro (m : macrodef).
+Inductive bare1 := B1Plain (b : bare0) | B1Include.
+Inductive bare := BPlain (b : bare0) | BInclude (src : list (list rattr * bare1)).
+
+Record text := { t_attrs : list pattr; t_sig : option (list rattr); t_items : list (list rattr * bare) }.
+
+Definition is_nil {A} (l : list A) : bool := match l with [] => true | _ => false end.
+
+(* the first Attribute::parse_outer: it consumes the attributes in front of whatever comes first, the signature or,
+   without one, the first item (whose own parse_outer then finds nothing) *)
+Definition take_lead {X} (sig : option (list rattr)) (items : list (list rattr * X)) : list rattr * list (list rattr * X) :=
+  match sig with
+  | Some a => (a, items)
+  | None => match items with [] => ([], []) | (a, x) :: tl => (a, ([], x) :: tl) end
+  end.
+
+(* the item loop; [pending] = struct_attrs *)
+Fixpoint hand_out {X} (pending : list rattr) (items : list (list rattr * X)) : list (list rattr * X) :=
+  match items with
+  | [] => []
+  | (own, x) :: tl => ((if is_nil pending then own else pending), x) :: hand_out [] tl
+  end.
+
+(* (what the struct receives, the items with what each receives) *)
+Definition distribute {X} (sig : option (list rattr)) (items : list (list rattr * X)) : option (list rattr) * list (list rattr * X) :=
+  match sig with
+  | Some _ => (Some (fst (take_lead sig items)), hand_out [] (snd (take_lead sig items)))
+  | None => (None, hand_out (fst (take_lead sig items)) (snd (take_lead sig items)))
+  end.
+
+Definition give0 (attrs : list rattr) (b : bare0) : item0 :=
+  match b with
+  | BRel n tys lat => IRel {| d_name := n; d_tys := tys; d_lat := lat; d_attrs := attrs |}
+  | BRule r => IRule (length attrs) r
+  | BMacro m => IMacro (length attrs) m
+  end.
+Definition give1 (x : list rattr * bare1) : item1 :=
+  match snd x with B1Plain b => I1Plain (give0 (fst x) b) | B1Include => I1Include (length (fst x)) end.
+Definition parse_src (src : list (list rattr * bare1)) : list item1 := map give1 (snd (distribute None src)).
+Definition give (x : list rattr * bare) : item :=
+  match snd x with BPlain b => IPlain (give0 (fst x) b) | BInclude src => IInclude (length (fst x)) (parse_src src) end.
+
+Definition parse_text (T : text) : program :=
+  {| p_attrs := t_attrs T; p_items := map give (snd (distribute (t_sig T) (t_items T))) |}.
+(* what signatures.declaration.attrs becomes (emitted on the generated struct; checked by rustc only) *)
+Definition sig_attrs (T : text) : option (list rattr) := fst (distribute (t_sig T) (t_items T)).
 
 (* ------------------------------------------------------------------ stage 2: macro expansion *)
 
@@ -574,3 +675,8 @@ Definition offenders (c0 : counters) (P : program) : list (nat * nat) :=
   | OK its => match expand_rules (macros_of its) (rules_of its) with OK xr => strat_offenders (ds_rules c0 xr) | _ => [] end
   | _ => []
   end.
+
+(* ------------------------------------------------------------------ the front end on a text *)
+
+Definition check_text (c0 : counters) (T : text) (k : mkind) : verdict := check c0 (parse_text T) k.
+Definition invoke_text (c0 : counters) (T : text) (k : mkind) : verdict := invoke c0 (parse_text T) k.
